@@ -6,7 +6,7 @@ from harness import table_scorers as ts
 from harness.engine import coq_bad_cases, coq_eval, coq_list, pairs_nat, zlist, zlit, zmat
 
 INFO = {
-    "extra_targets": ["Check/CapaCheck.vo"],
+    "extra_targets": ["Check/CapaCheck.vo", "Check/GenericCapaCheck.vo"],
     "level": "proof",
     "rule": "integer table savings (p = 1..4 columns) driven through the real CAPA (penalties assigned after fit) and MVCAPA "
             "(user penalty callables returning integer (alpha, betas): zero / equal / increasing / unordered betas): stream A = "
@@ -227,6 +227,9 @@ def run(ctx):
     variants_stream(ctx, "MVCAPA", lambda: _MVCAPA(min_segment_length=2, max_segment_length=30), ctx.n(3, 16),
                     flat_make=lambda: _MVCAPA(min_segment_length=2, collective_penalty_scale=1e6, point_penalty_scale=1e6))
     float_optimality_stream(ctx)
+    # ---- the generic dynamic programme (Model/GenericCapa.v) on primitive floats against the real CAPA / MVCAPA, bit for bit ----
+    from harness import floatstreams
+    floatstreams.capa_float_stream(ctx, ctx.n(18, 120))
 
 
 def float_optimality_stream(ctx):
